@@ -7,7 +7,8 @@ demo (must exit 1), undo, run the demo (must exit 0).
 """
 import json, os, shutil, subprocess, sys, glob, re
 
-SRC = "/tmp/wt"
+SRC = os.environ.get("SEED_SRC", "/tmp/wt")
+PREFIX = os.environ.get("SEED_PREFIX", "")     # e.g. "r2" -> ids Cxx-r2mN
 OUT = "/verif/seeded"
 PY = "/venv/bin/python"
 
@@ -18,7 +19,7 @@ def sh(cmd, cwd, timeout=900):
 
 
 def scratch():
-    d = "/tmp/seedscratch_%d" % os.getpid()
+    d = "/tmp/seedscratch_%d_%s" % (os.getpid(), os.environ.get("SEED_SHARD", "0"))
     if os.path.exists(d):
         shutil.rmtree(d)
     os.makedirs(d)
@@ -30,7 +31,7 @@ def main():
     only = sys.argv[1:]
     for mdir in sorted(glob.glob(f"{SRC}/C*/out/m*")):
         prop = mdir.split("/")[3]
-        mid = f"{prop}-{os.path.basename(mdir)}"
+        mid = f"{prop}-{PREFIX}{os.path.basename(mdir)}"
         if only and prop not in only and mid not in only:
             continue
         dest = os.path.join(OUT, mid)
